@@ -42,7 +42,7 @@ func zxSameKey(a, b []byte) bool {
 // them), walking the tree visits exactly one node per distinct key, under that key, holding the
 // fold of exactly that key's updates; Length() is the number of distinct keys.
 //
-//zx:harness prop=C01 id=C01.B tier=quick K=3 L=3 thorough.K=4 shard=lenk0:3,lenk1:3
+//zx:harness prop=C01 id=C01.B tier=quick K=3 L=3 shard=lenk0:3,lenk1:3 thorough.K=4 thorough.L=3 thorough.shard=lenk0:3,lenk1:3,lenk2:3
 func zxC01Tree() {
 	K := vrtParam("K", 3)
 	L := vrtParam("L", 3)
@@ -105,7 +105,7 @@ func zxC01Tree() {
 // change what the live tree holds (DESIGN §5 C18: the schedule quantifier reduced to sequential
 // aliasing).
 //
-//zx:harness prop=C18+C04 id=C18.A tier=quick L=2 shard=later:3
+//zx:harness prop=C18+C04 id=C18.A tier=quick L=2 shard=later:3 thorough.L=3 thorough.shard=later:3,lenk1:3
 func zxC18Snapshot() {
 	L := vrtParam("L", 2)
 	e := expr.SUM(expr.FIELD("a"))
